@@ -331,6 +331,12 @@ func (fa *funcAn) evalBool(v ssa.Value, st lstate) int8 {
 			if idx, ok := fa.boolIdx[x.X]; ok {
 				return fa.getCell(st, idx)
 			}
+			// a boolean field of a record the context knows (s.locked)
+			if fld, ok := x.X.(*ssa.FieldAddr); ok {
+				if v := fa.recordFieldBool(fld.X, fld.Field, st); v != 0 {
+					return v
+				}
+			}
 			if fv, ok := x.X.(*ssa.FreeVar); ok {
 				for i, f := range fa.fn.FreeVars {
 					if f == fv {
@@ -338,6 +344,10 @@ func (fa *funcAn) evalBool(v ssa.Value, st lstate) int8 {
 					}
 				}
 			}
+		}
+	case *ssa.Field:
+		if i := fa.paramIndex(x.X); i >= 0 {
+			return ctxFieldBool(fa.ctx.params, i, x.Field)
 		}
 	case *ssa.Phi:
 		if idx, ok := fa.boolIdx[x]; ok {
@@ -358,6 +368,90 @@ func ctxBool(enc string, i int) int8 {
 			case 'F':
 				return 1
 			}
+		}
+	}
+	return 0
+}
+
+// ctxFieldBool: the value the context gives the boolean field j of the record parameter i (0 unknown, 1 false, 2 true).
+func ctxFieldBool(enc string, i, j int) int8 {
+	want := fmt.Sprintf("%d.%d=", i, j)
+	for _, part := range strings.Split(enc, ",") {
+		if strings.HasPrefix(part, want) && len(part) == len(want)+1 {
+			switch part[len(want)] {
+			case 'T':
+				return 2
+			case 'F':
+				return 1
+			}
+		}
+	}
+	return 0
+}
+
+// paramIndex: the index of p among the parameters of the analysed function, -1 when it is none of them.
+func (fa *funcAn) paramIndex(v ssa.Value) int {
+	for i, p := range fa.fn.Params {
+		if ssa.Value(p) == v {
+			return i
+		}
+	}
+	return -1
+}
+
+// recordFieldBool: the boolean field j of the record at addr — a parameter (by address), the cell a by-value parameter
+// was spilled into, or a local record filled field by field with exactly one store to that field.
+func (fa *funcAn) recordFieldBool(addr ssa.Value, j int, st lstate) int8 {
+	if i := fa.paramIndex(addr); i >= 0 {
+		return ctxFieldBool(fa.ctx.params, i, j)
+	}
+	al, ok := addr.(*ssa.Alloc)
+	if !ok || al.Referrers() == nil {
+		return 0
+	}
+	var val ssa.Value
+	n := 0
+	for _, ref := range *al.Referrers() {
+		switch x := ref.(type) {
+		case *ssa.Store:
+			if x.Addr == ssa.Value(al) {
+				// assigned as a whole: from a by-value parameter (the spill of a value receiver)
+				if i := fa.paramIndex(x.Val); i >= 0 {
+					return ctxFieldBool(fa.ctx.params, i, j)
+				}
+				return 0
+			}
+		case *ssa.FieldAddr:
+			if x.Field != j || x.Referrers() == nil {
+				continue
+			}
+			for _, rr := range *x.Referrers() {
+				if s2, ok := rr.(*ssa.Store); ok && s2.Addr == ssa.Value(x) {
+					val = s2.Val
+					n++
+				}
+			}
+		}
+	}
+	if n == 1 {
+		return fa.evalBool(val, st)
+	}
+	return 0
+}
+
+// argFieldBool: the boolean field j of the record an argument denotes (the record itself loaded from a local, its
+// address, or a parameter passed on).
+func (fa *funcAn) argFieldBool(a ssa.Value, j int, st lstate) int8 {
+	switch x := a.(type) {
+	case *ssa.UnOp:
+		if x.Op == token.MUL {
+			return fa.recordFieldBool(x.X, j, st)
+		}
+	case *ssa.Alloc:
+		return fa.recordFieldBool(x, j, st)
+	case *ssa.Parameter:
+		if i := fa.paramIndex(x); i >= 0 {
+			return ctxFieldBool(fa.ctx.params, i, j)
 		}
 	}
 	return 0
@@ -431,6 +525,18 @@ func (fa *funcAn) syncField(v ssa.Value) (string, string, ssa.Value, bool) {
 		for i, q := range fa.fn.Params {
 			if q == p {
 				if tf := ctxSync(fa.ctx.params, i); tf != "" {
+					if k := strings.LastIndex(tf, "."); k > 0 {
+						return tf[:k], tf[k+1:], p, true
+					}
+				}
+			}
+		}
+	}
+	// a captured parameter of the enclosing function (see spawn)
+	if p, ok := an.Origin(v).(*ssa.Parameter); ok && fa.fn.Parent() != nil && p.Parent() == fa.fn.Parent() {
+		for i, q := range p.Parent().Params {
+			if q == p {
+				if tf := ctxSync(fa.ctx.params, -(i + 1)); tf != "" {
 					if k := strings.LastIndex(tf, "."); k > 0 {
 						return tf[:k], tf[k+1:], p, true
 					}
@@ -1131,6 +1237,20 @@ func (fa *funcAn) calleeCtx(st lstate, call ssa.CallInstruction, t target) ctxKe
 					ps = append(ps, fmt.Sprintf("%d=T", i))
 				}
 			}
+			// a record handed over by value or by address (sweep.run(…) with sweep := gcSweep{locked: locked, …}): its boolean
+			// fields whose value this context decides keep it in the callee, as "<param>.<field>=T|F"
+			if stt, ok := an.Deref(t.fn.Params[i].Type()).Underlying().(*types.Struct); ok && stt.NumFields() <= 16 {
+				for j := 0; j < stt.NumFields(); j++ {
+					if b, ok := stt.Field(j).Type().Underlying().(*types.Basic); ok && b.Kind() == types.Bool {
+						switch fa.argFieldBool(a, j, st) {
+						case 1:
+							ps = append(ps, fmt.Sprintf("%d.%d=F", i, j))
+						case 2:
+							ps = append(ps, fmt.Sprintf("%d.%d=T", i, j))
+						}
+					}
+				}
+			}
 			// a function value handed over (mr.withLock(func() {…}), gcTicker(…, d.gc)): the callee's call of the
 			// parameter means this function, not every function any caller passes
 			if _, isSig := t.fn.Params[i].Type().Underlying().(*types.Signature); isSig {
@@ -1288,6 +1408,19 @@ func (fa *funcAn) spawn(st lstate, g *ssa.Go) lstate {
 	params := ""
 	if g.Call.StaticCallee() == fn && len(g.Call.Args) == len(fn.Params) {
 		params = fa.calleeCtx(st, g, target{fn: fn, args: g.Call.Args}).params
+	}
+	// a closure of this function that captures a parameter this context binds to a sync primitive (wg.Add(1); go func() {
+	// defer wg.Done(); … }() in a function handed &d.wg): the binding travels with the closure, under the negative index
+	// -(i+1) of the enclosing function's parameter
+	if fn.Parent() == fa.fn {
+		for i := range fa.fn.Params {
+			if tf := ctxSync(fa.ctx.params, i); tf != "" {
+				if params != "" {
+					params += ","
+				}
+				params += fmt.Sprintf("%d=@%s", -(i + 1), tf)
+			}
+		}
 	}
 	var transfer uint64
 	for _, sub := range an.WithAnon(fn) {
